@@ -956,16 +956,19 @@ class MultiCall(object):
     add_result, address = multicall()
     """
 
-    def __init__(self, server, config=jsonrpclib.config.DEFAULT):
+    def __init__(self, server, config=None):
         """
         Sets up the multicall
 
         :param server: A ServerProxy object
-        :param config: Request configuration
+        :param config: Request configuration (the one of the server proxy
+                       by default)
         """
         self._server = server
         self._job_list = []
-        self._config = config
+        self._config = config or getattr(
+            server, "_config", jsonrpclib.config.DEFAULT
+        )
 
     def _request(self):
         """
